@@ -257,6 +257,55 @@ theorem unblock_blocks {P : Nat} {bs : List Bytes} (h : Blocks P bs) :
     simp only [List.flatten_cons, List.map_cons]
     rw [unblock_cons _ hb, ih (fun x hx => h x (by simp [hx])), ht]; simp
 
+/-- payload bytes that survive when a blocked file is cut after `n` bytes:
+    `P` per complete block, and what is present of the next block's payload -/
+def surv (P n : Nat) : Nat := if n < P + 2 then min n P else P + surv P (n - (P + 2))
+termination_by n
+decreasing_by omega
+
+theorem surv_le (P n : Nat) : surv P n ≤ n := by
+  induction n using surv.induct (P := P) with
+  | case1 n h => rw [surv, if_pos h]; omega
+  | case2 n h ih => rw [surv, if_neg h]; omega
+
+theorem payloads_nil' (P : Nat) : payloads P [] = [] := by rw [payloads]; simp
+
+theorem payloads_take_blocks {P : Nat} {bs : List Bytes} (h : Blocks P bs) (n : Nat) :
+    payloads P (bs.flatten.take n) = ((bs.map (List.take P)).flatten).take (surv P n) := by
+  induction bs generalizing n with
+  | nil => simp [payloads_nil']
+  | cons b bs ih =>
+    obtain ⟨hb, _⟩ := h b (by simp)
+    have ih' := ih (fun x hx => h x (by simp [hx]))
+    simp only [List.flatten_cons, List.map_cons]
+    by_cases hn : n < P + 2
+    · rw [surv, if_pos hn, List.take_append_of_le_length (by omega)]
+      rw [List.take_append_of_le_length (by simp [List.length_take]; omega)]
+      by_cases h0 : n = 0
+      · subst h0; simp [payloads_nil']
+      · rw [payloads]
+        have hl : (b.take n).length ≠ 0 := by rw [List.length_take]; omega
+        have hd : (b.take n).drop (P + 2) = [] := by
+          rw [List.drop_eq_nil_iff, List.length_take]; omega
+        simp only [hl, if_false, hd, payloads_nil', List.append_nil, List.take_take]
+        congr 1; omega
+    · have hL : (b ++ bs.flatten).take n = b ++ bs.flatten.take (n - (P + 2)) := by
+        rw [List.take_append, List.take_of_length_le (by omega), hb]
+      have hR : (b.take P ++ (bs.map (List.take P)).flatten).take (P + surv P (n - (P + 2))) =
+          b.take P ++ ((bs.map (List.take P)).flatten).take (surv P (n - (P + 2))) := by
+        have hlp : (b.take P).length = P := by rw [List.length_take]; omega
+        rw [List.take_append, List.take_of_length_le (by omega), hlp]
+        congr 2; omega
+      rw [surv, if_neg hn, hL, hR, payloads_cons _ hb, ih']
+
+theorem length_payloads_blocks {P : Nat} {bs : List Bytes} (h : Blocks P bs) :
+    ((bs.map (List.take P)).flatten).length ≤ bs.flatten.length := by
+  induction bs with
+  | nil => simp
+  | cons b bs ih =>
+    have := ih (fun x hx => h x (by simp [hx]))
+    simp [List.length_take] at this ⊢; omega
+
 /-- chunks of `d`: complete `P`-chunks then the non-empty partial chunk -/
 def chunks (P : Nat) (d : Bytes) : List Bytes :=
   if d.length = 0 then []
